@@ -344,7 +344,10 @@ def _scan(repo, col, R="R-C06-scan"):
             f"first (C order, nested_lengths leading, the remaining axes of x unchanged)", node=nr.fi.node)
     # length guard
     g = [n for n in walk_no_nested(fi.node) if isinstance(n, ast.If) and any(isinstance(b, ast.Raise) for b in n.body)]
-    ok = any("math.prod(nested_lengths)" in unparse(x.test) or "prod(nested_lengths)" in unparse(x.test) for x in g)
+    ok = any(T.find(ex.term(x.test), lambda y: y.op in ("call", "mcall") and y.name == "prod" and
+                    T.find(y, lambda z: z.op == "param" and z.name == "nested_lengths") is not None) is not None and
+             T.find(ex.term(x.test), lambda y: y.op == "cmp" and y.name in ("!=", "<", ">") and
+                    T.find(y, lambda z: z.op in ("call", "mcall") and z.name == "prod") is not None) is not None for x in g)
     col.check(ok, R, fi, "length != prod(nested_lengths) is refused", "raise ValueError", "the length guard was removed", node=fi.node)
     rr = ex.returns[0] if ex.returns else None
     ok = rr is not None and rr.op == "call" and rr.name == "_inner_nested_scan" and len(rr.args) >= 4 and \
